@@ -723,3 +723,145 @@ class P2MTask(Task):
 
 def _b(t):
     return z3.BoolVal(t) if isinstance(t, bool) else t
+
+
+# ---------------------------------------------------------------------------------------------
+# DIMSEServiceProvider.send_msg / maximum_pdu_size: the glue between a primitive and the wire (C15, C16)
+# ---------------------------------------------------------------------------------------------
+DIMSE = "pynetdicom.dimse"
+SENDMSG = f"{DIMSE}:DIMSEServiceProvider.send_msg"
+MAXPDU = f"{DIMSE}:DIMSEServiceProvider.maximum_pdu_size.fget"
+PRIMS = ["C_ECHO", "C_STORE", "C_FIND", "C_MOVE", "C_GET", "C_CANCEL", "N_EVENT_REPORT", "N_GET", "N_SET", "N_ACTION", "N_CREATE", "N_DELETE"]
+
+
+class SendMsgTask(Task):
+    """send_msg: the message object is the request / response message class of the primitive's own type (a primitive with a
+    Message ID Being Responded To is a response; C-CANCEL is always the C-CANCEL-RQ), it is filled from THAT primitive, carries
+    the given context id, is fragmented with the PEER's maximum length, and every P-DATA the fragmenter yields is handed to the
+    provider in order, after one EVT_DIMSE_SENT notification.  maximum_pdu_size is the maximum length the peer announced
+    (the acceptor's for a requestor and vice versa)."""
+    name = "DIMSEServiceProvider.send_msg"
+    functions = [SENDMSG, MAXPDU]
+    shard = False
+
+    def __init__(self, prefix="C15/"):
+        self.prefix = prefix
+
+    def config(self, repo):
+        c = Config()
+        c.ob_prefix = self.prefix
+
+        def trigger(I, args, kw):
+            ev = args[1]
+            name = ev.fields.get("name") if isinstance(ev, Obj) else repr(ev)
+            I.trace.append(Ev("evt", (name, args[2] if len(args) > 2 else None)))
+        c.summaries["pynetdicom.events:trigger"] = trigger
+        for cls in I_MSG_CLASSES(repo):
+            c.summaries[f"{DM}:{cls}"] = (lambda cls: lambda I, a, k: I.ghost["new_msg"](I, cls))(cls)
+
+        def env_call(I, env, method, args, kw):
+            g = I.ghost
+            if env.path.startswith("msg:") and method == "primitive_to_message":
+                I.trace.append(Ev("primitive_to_message", (env, args[0])))
+                return None
+            if env.path.startswith("msg:") and method == "encode_msg":
+                I.trace.append(Ev("encode_msg", (env,) + tuple(args)))
+                n = I.fresh("int", "n_pdata").e
+                I.assume(n >= 1)
+                memo = {}
+
+                def pd(i):
+                    k = str(z3.simplify(i))
+                    if k not in memo:
+                        memo[k] = Env(f"pdata[{k}]")
+                    return memo[k]
+                g["pdatas"] = SymSeq("pdatas", n, pd)
+                return g["pdatas"]
+            if env.path == "dimse.dul" and method == "send_pdu":
+                I.trace.append(Ev("send_pdu", (args[0],)))
+                return None
+            return NotImplemented
+        c.env_call = env_call
+        fi = repo.func(SENDMSG)
+        loops = sorted([n for n in ast.walk(fi.node) if isinstance(n, (ast.For, ast.While))], key=lambda n: (n.lineno, n.col_offset))
+        if len(loops) != 1 or not isinstance(loops[0], ast.For) or not isinstance(loops[0].target, ast.Name):
+            raise Unsupported("send_msg: expected exactly one for-loop (over the P-DATA primitives)")
+        task = self
+
+        class SendLoop(LoopSpec):
+            def havoc(self, I, fr):
+                I.ghost["mark"] = len(I.trace)
+                I.ghost["loop_over"] = self.seq
+
+            def after_body(self, I, fr):
+                sent = [e for e in I.trace[I.ghost["mark"]:] if e.name == "send_pdu"]
+                x = fr.locals[loops[0].target.id]
+                I.ob(f"{task.prefix}{SENDMSG}/each-P-DATA-of-the-fragmenter-is-sent-once-in-order", len(sent) == 1 and sent[0].args[0] is x,
+                     detail=repr(sent))
+        c.loop_specs[(SENDMSG, 0)] = SendLoop()
+        return c
+
+    def body(self, I):
+        P = f"{self.prefix}{SENDMSG}"
+        g = I.ghost
+        made = []
+
+        def new_msg(I_, cls):
+            m = Env(f"msg:{cls}")
+            made.append((cls, m))
+            return m
+        g["new_msg"] = new_msg
+        me = Env("dimse", cls=I.repo.cls(f"{DIMSE}:DIMSEServiceProvider"))
+        assoc = Env("dimse.assoc")
+        me.attrs.update(assoc=assoc, dul=Env("dimse.dul"))
+        is_rq = I.input("bool", "is_requestor")
+        assoc.attrs.update(is_requestor=is_rq, is_acceptor=SV(z3.Not(is_rq.e), "bool"))
+        rq_max, ac_max = I.input("int", "requestor_maximum_length"), I.input("int", "acceptor_maximum_length")
+        rq, ac = Env("dimse.assoc.requestor"), Env("dimse.assoc.acceptor")
+        rq.attrs["maximum_length"], ac.attrs["maximum_length"] = rq_max, ac_max
+        assoc.attrs.update(requestor=rq, acceptor=ac)
+        pname = PRIMS[I.choose(len(PRIMS), "primitive type")]
+        prim = Env("primitive", cls=I.repo.cls(f"pynetdicom.dimse_primitives:{pname}"))
+        is_rsp = I.choose(2, "MessageIDBeingRespondedTo present") == 0
+        prim.attrs["MessageIDBeingRespondedTo"] = I.input("int", "MessageIDBeingRespondedTo") if is_rsp else None
+        cid = I.input("int", "context_id")
+        kind, val = I.run_function(I.repo.func(SENDMSG), [me, prim, cid])
+        if pname == "C_CANCEL" and not is_rsp:
+            # not a message pynetdicom builds: a C-CANCEL always names the operation it cancels
+            return
+        I.ob(f"{P}/no-exception", kind == "return", detail=f"{kind}:{val!r}")
+        if kind != "return":
+            return
+        tr = I.trace
+        want = "C_CANCEL_RQ" if pname == "C_CANCEL" else f"{pname}_{'RSP' if is_rsp else 'RQ'}"
+        I.ob(f"{P}/the-message-class-is-the-request-or-response-message-of-the-primitive's-type", [c for c, _ in made] == [want],
+             detail=f"{pname} ({'response' if is_rsp else 'request'}) -> {[c for c, _ in made]}")
+        if len(made) != 1:
+            return
+        msg = made[0][1]
+        p2m = [e for e in tr if e.name == "primitive_to_message"]
+        enc = [e for e in tr if e.name == "encode_msg"]
+        evs = [e for e in tr if e.name == "evt"]
+        I.ob(f"{P}/the-message-is-filled-from-this-primitive-once", len(p2m) == 1 and p2m[0].args == (msg, prim))
+        I.ob(f"{P}/one-EVT_DIMSE_SENT-with-the-message-before-anything-is-sent",
+             len(evs) == 1 and evs[0].args[0] == "EVT_DIMSE_SENT" and isinstance(evs[0].args[1], dict) and evs[0].args[1].get("message") is msg
+             and (not enc or tr.index(evs[0]) < tr.index(enc[0])))
+        ok_enc = len(enc) == 1 and enc[0].args[0] is msg and len(enc[0].args) == 3 and enc[0].args[1] is cid
+        I.ob(f"{P}/the-message-is-fragmented-once-for-the-given-context-id", ok_enc, detail=repr(enc))
+        if ok_enc:
+            peer = z3.If(is_rq.e, ac_max.e, rq_max.e)
+            I.ob(f"{P}/fragmented-with-the-maximum-length-the-PEER-announced", I._num(enc[0].args[2], "int") == peer)
+        I.ob(f"{P}/the-send-loop-ranges-over-everything-the-fragmenter-yields", g.get("loop_over") is g.get("pdatas"))
+
+
+def I_MSG_CLASSES(repo):
+    out = []
+    for p in PRIMS:
+        for suf in ("RQ", "RSP"):
+            n = f"{p}_{suf}"
+            try:
+                repo.cls(f"{DM}:{n}")
+                out.append(n)
+            except Exception:
+                pass
+    return out
